@@ -397,6 +397,7 @@ type Call struct {
 	E       *Err   `json:"e,omitempty"`
 	Items   []Val  `json:"items,omitempty"`
 	Results []Val  `json:"results,omitempty"`
+	Codes   []int  `json:"codes,omitempty"` // park: 16*item index + attempt of every exec call in flight
 }
 
 func (c Call) Coq() string {
@@ -411,6 +412,13 @@ func (c Call) Coq() string {
 		return fmt.Sprintf("(CPost %d %s %s %s)", c.N, c.St.Coq(), c.P.Coq(), c.X.Coq())
 	case "bpost":
 		return fmt.Sprintf("(CBPost %d %s %s %s)", c.N, c.St.Coq(), coqVals(c.Items), coqVals(c.Results))
+	}
+	if c.K == "park" {
+		cs := make([]string, len(c.Codes))
+		for i, x := range c.Codes {
+			cs[i] = fmt.Sprint(x)
+		}
+		return fmt.Sprintf("(CPark %d [%s])", c.N, strings.Join(cs, "; "))
 	}
 	return "(CWait 0 0 0)"
 }
